@@ -21,6 +21,12 @@ theorem uniq_nodup (l : List β) : (uniq l).Nodup := by
     refine ⟨by simp, ?_⟩
     exact List.Pairwise.filter _ ih
 
+theorem foldl_append_flatMap {γ δ : Type} (g : γ → List δ) (vs : List γ) (init : List δ) :
+    vs.foldl (fun a v => a ++ g v) init = init ++ vs.flatMap g := by
+  induction vs generalizing init with
+  | nil => simp
+  | cons v vs ih => rw [List.foldl_cons, ih, List.flatMap_cons, List.append_assoc]
+
 theorem flatMap_congr' {γ δ : Type} (l : List γ) (f g : γ → List δ) (h : ∀ a ∈ l, f a = g a) :
     l.flatMap f = l.flatMap g := by
   induction l with
